@@ -5,6 +5,8 @@ From Coq Require Import List Arith Bool Permutation.
 Require Import TT.Model.Str TT.Model.C07TypeParse TT.Model.C07Harvest TT.Model.C07Worklist TT.Model.C07Reach.
 Require Import TT.Spec.C07Spec TT.Spec.C07Known.
 Require Import TT.Proofs.C07TypeParseProofs TT.Proofs.C07HarvestProofs TT.Proofs.WorklistSpike TT.Proofs.C07Proofs TT.Proofs.C07Concrete TT.Proofs.C07Agree TT.Proofs.C07Lift TT.Proofs.C07Full TT.Proofs.C07Total TT.Proofs.C09Oracle TT.Proofs.C07Witness.
+Require Import TT.Model.C07Layout TT.Spec.C07LayoutSpec TT.Proofs.C07LayoutProofs.
+Require TT.Model.C03Discover TT.Spec.C03Spec.
 Import ListNotations.
 
 (* For every iteration order of every hash collection (root set, dependency sets, used set, field name
@@ -120,6 +122,82 @@ Proof. exact payload_expr_refuted. Qed.
 Theorem C07_odd_name_refuted : kf_c07_odd_name w_odd_name = true /\ refutes w_odd_name.
 Proof. exact odd_name_refuted. Qed.
 
+(* ---------------- which files are scanned at all: composition with the discovery model of C03 ----------------
+   A project-with-layout is the walk of the source tree (Model/C07Layout.v: every regular file with its components
+   below the project path and what read_to_string + syn::parse_file make of it). The project the C07 model runs on
+   is the list of files C03Discover.accepted keeps and the parser accepts; by C03_accepted_by_components it is the
+   project of the property text (stem.rs, no directory component named exactly target or .git), for every
+   spelling of the project path. *)
+Theorem C07_layout_scanned_is_spec : forall (root : str) (lp : lproject), scanned root lp = spec_project lp.
+Proof. exact scanned_spec. Qed.
+
+(* C07_exact over layouts: for every iteration order and every project path, types.ts declares, once each, exactly
+   the serde types reachable from the commands / events of accepted parsable files through definitions in
+   accepted parsable files; the premises are those of C07_exact on the accepted part of the walk *)
+Theorem C07_layout_exact : forall (o : orders) (root : str) (lp : lproject) (decl : list str),
+  ord_ok o -> in_domain (spec_project lp) = true ->
+  kf_c07_field_result (spec_project lp) = false -> kf_c07_odd_name (spec_project lp) = false ->
+  kf_c07_inline_mod (spec_project lp) = false -> kf_c07_payload_expr (spec_project lp) = false ->
+  layout_declared o root lp = Some decl ->
+  NoDup decl /\ (forall x, In x decl <-> LayoutSpecReach lp x) /\ Permutation decl (layout_reachable lp).
+Proof. exact layout_exact. Qed.
+
+(* the run-time oracle of the layout stream (the extracted c07_layout_eval computes layout_reachable from the
+   walk the generator wrote to disk, excluded files included) *)
+Theorem C07_layout_oracle_spec : forall lp ob, in_domain (spec_project lp) = true -> c07_layout_ok lp ob = true ->
+  NoDup (ob_types ob) /\ (forall x, In x (ob_types ob) <-> LayoutSpecReach lp x)
+  /\ Permutation (ob_types ob) (layout_reachable lp).
+Proof. exact layout_oracle_spec. Qed.
+
+(* the component test, as a proposition: the file name is stem.rs and NO directory component below the project
+   path EQUALS target or .git (targets, target_kinds, .github, a file target.rs pass: see C07_layout_ex) *)
+Theorem C07_layout_accept_reflect : forall comps, C03Spec.spec_accept comps = true <-> AcceptedPath comps.
+Proof. exact accept_reflect. Qed.
+
+(* every type of the specification's set is a serde type defined in an accepted, parsable file ... *)
+Theorem C07_layout_declared_defined_in_accepted : forall lp x, LayoutSpecReach lp x -> DefinedInAccepted lp x.
+Proof. exact reach_defined_in_accepted. Qed.
+(* ... so a name all of whose definitions lie below a directory component named exactly target / .git (or in a
+   file that is not stem.rs) is not in it, whatever mentions it *)
+Theorem C07_layout_only_excluded_not_declared : forall lp x,
+  (forall comps its d, In (comps, LParsed its) lp -> In d (flat_map item_defs its) -> d_name d = x ->
+     C03Spec.rs_name (last comps []) = false \/
+     exists c, In c (removelast comps) /\ (DirNamed "target" c \/ DirNamed ".git" c)) ->
+  ~ LayoutSpecReach lp x.
+Proof. exact only_excluded_not_reached. Qed.
+
+(* frame: a walked file that is rejected by the component test, does not parse or is not UTF-8 changes nothing,
+   wherever it stands in the iteration order (its commands, events and definitions are all gone: the C07 side of
+   C03_unparsable_isolated) *)
+Theorem C07_layout_ignored_frame : forall o root pre f post, ignored f = true ->
+  scanned root (pre ++ f :: post) = scanned root (pre ++ post) /\
+  layout_declared o root (pre ++ f :: post) = layout_declared o root (pre ++ post) /\
+  layout_reachable (pre ++ f :: post) = layout_reachable (pre ++ post).
+Proof. exact ignored_frame. Qed.
+
+(* non-vacuity, with near-miss names: src/targets/m.rs, src/target_kinds/k.rs, .github/p.rs, src/target.rs and
+   src/.git.rs are scanned and their types declared; target/debug/ghost.rs, src/.git/h.rs, src/targets/target/x.rs,
+   src/notes.txt, an unparsable and a non-UTF-8 file are ignored: Cache, Deep and Txt stay undeclared although
+   BuildPlan mentions them, the ghost command and the ghost event bring nothing *)
+Example C07_layout_ex :
+  in_domain (spec_project sample_walk) = true /\
+  kf_c07_field_result (spec_project sample_walk) = false /\ kf_c07_odd_name (spec_project sample_walk) = false /\
+  kf_c07_inline_mod (spec_project sample_walk) = false /\ kf_c07_payload_expr (spec_project sample_walk) = false /\
+  map fst (scanned sample_root sample_walk)
+    = map L ["src/lib.rs"; "src/targets/m.rs"; "src/target_kinds/k.rs"; ".github/p.rs"; "src/target.rs"; "src/.git.rs"]%string /\
+  map ignored sample_walk = [false; false; false; false; false; false; true; true; true; true; true; true] /\
+  layout_declared o_default sample_root sample_walk
+    = Some (map L ["Hook"; "Profile"; "Dot"; "TargetKind"; "BuildTarget"; "BuildPlan"]%string) /\
+  layout_reachable sample_walk = map L ["Hook"; "Profile"; "Dot"; "TargetKind"; "BuildTarget"; "BuildPlan"]%string /\
+  (C03Spec.spec_accept (comps_of ["src"; "targets"; "m.rs"]%string) = true /\
+   C03Spec.spec_accept (comps_of ["src"; "target"; "m.rs"]%string) = false /\
+   C03Spec.spec_accept (comps_of [".github"; "m.rs"]%string) = true /\
+   C03Spec.spec_accept (comps_of [".git"; "m.rs"]%string) = false /\
+   C03Spec.spec_accept (comps_of ["target-tauri"; "Target"; ".gitx"; "target.rs"]%string) = true).
+Proof. vm_compute. repeat split; reflexivity. Qed.
+Example C07_layout_ex_not_declared : ~ LayoutSpecReach sample_walk (L "Cache") /\ ~ LayoutSpecReach sample_walk (L "Deep").
+Proof. exact sample_not_reached. Qed.
+
 (* non-vacuity: the sample project (diamond, cycle, enum, decoys, channel, helper event) meets every
    premise of C07_exact and declares eight types *)
 Example C07_ex_premises :
@@ -158,3 +236,10 @@ Print Assumptions C07_field_result_refuted.
 Print Assumptions C07_inline_mod_refuted.
 Print Assumptions C07_payload_expr_refuted.
 Print Assumptions C07_odd_name_refuted.
+Print Assumptions C07_layout_scanned_is_spec.
+Print Assumptions C07_layout_exact.
+Print Assumptions C07_layout_oracle_spec.
+Print Assumptions C07_layout_accept_reflect.
+Print Assumptions C07_layout_declared_defined_in_accepted.
+Print Assumptions C07_layout_only_excluded_not_declared.
+Print Assumptions C07_layout_ignored_frame.
